@@ -116,7 +116,8 @@ def rnd_criteria(rng, refs, params=None):
                 tree[2][0][0] = "and"
             if tree[2] and rng.random() < 0.4:
                 # a second group of the other kind beside the first (AND of two ORs / OR of two ANDs): every one of them counts
-                tree[2].append([tree[2][0][0], [{"left": other, "op": rng.choice(["==", "!=", "<"]), "lcal": False, "rvalue": str(rng.choice([0, 1, 2, 3]))},
+                lc2 = rng.random() < 0.5
+                tree[2].append([tree[2][0][0], [{"left": other, "op": rng.choice(["==", "!=", "<", ">="]), "lcal": lc2, "rparam": ref, "rcal": not lc2},
                                                 {"left": ref, "op": rng.choice(["==", ">"]), "lcal": rng.random() < 0.5, "rvalue": str(rng.choice([0, 1, 2]))}], []])
             if tree[2] and rng.random() < 0.5:
                 # a third level (AND under OR under AND, or the other way round), its conditions decisive for some packets
